@@ -28,7 +28,8 @@ def run(ctx):
     if ctor is None or count is None:
         return
     # [lo, hi] from the constructor
-    agg = [bi for bi, blk in enumerate(ctor.blocks) for st in blk.stmts if st.k == "assign" and st.rv.k == "aggregate" and st.rv.j.get("adt") == HLL]
+    from .common import construction_blocks
+    agg = construction_blocks(ctx, ctor, HLL)
     lo = hi = None
     if agg:
         lo, hi = int_bounds(atomic_facts(ctor, prog, agg[0]), ("param", 1, "b"))
@@ -155,9 +156,34 @@ def run(ctx):
         f = prog.fn(k)
         ctx.analysed_fns.add(k)
         tbk = TermBuilder(f, prog)
-        for (bi, kind, detail, span) in panic_sites(f):
+        sites_k = panic_sites(f)
+        safe_unwraps = set()
+        if any(kind in ("unwrap", "expect") for (_, kind, _, _) in sites_k):
+            # unwrap() of an Option whose variant every path has already established (a `match (left, right)` on the cursors
+            # followed by `left.unwrap()` on the arms where left is Some)
+            from ..paths import PathEnumerator
+            seen_v = {}
+            for pth in PathEnumerator(f, prog, ctx.summ, max_back=1, limit=4000).paths():
+                for e in pth.events:
+                    if e["kind"] == "call" and e["name"] in ("unwrap", "expect") and e.get("origin_fn") == f.key:
+                        seen_v.setdefault(e["bb"], set()).add(e.get("arg_variant"))
+            safe_unwraps = {b for b, vs in seen_v.items() if vs <= {"Some", "Ok"}}
+        for (bi, kind, detail, span) in sites_k:
             # sites refuted by a dominating test of the same function need no entry in the table below
             why = discharged_by_facts(f, prog, bi, tbk)
+            if why is None and bi in safe_unwraps:
+                why = "unwrap() of a value every path has matched as Some"
+            if why is None and kind == "Assert:Overflow:Add" and k == HLL + "::estimate_bias":
+                # cursor payload + 1: the payload is a valid row index (R03-neighbour-bounds), so it is < len(row) <= isize::MAX
+                blk = f.blocks[bi]
+                for si in range(len(blk.stmts) - 1, -1, -1):
+                    st = blk.stmts[si]
+                    if st.k == "assign" and st.rv.k == "binop" and st.rv.j["op"] == "AddWithOverflow":
+                        a0 = tbk.operand(st.rv.ops[0], bi, si)
+                        pay = a0[2][0] if (a0[0] == "call" and a0[1].endswith("::unwrap")) else (a0[1][1] if a0[0] == "field" and a0[1][0] == "variant" else None)
+                        if pay is not None and pay[0] == "loopvar" and f.local_ty(pay[1]).startswith("std::option::Option<usize") and tbk.operand(st.rv.ops[1], bi, si) == const(1):
+                            why = "cursor payload + 1 (valid row index)"
+                        break
             if why is not None:
                 n_local += 1
                 continue
